@@ -67,6 +67,10 @@ Lin(a) ==
           /\ UNCHANGED <<hs, body, intReq, intEn, stopReq, cbReg, cbRan>>
        \/ /\ k = "acq" /\ rel[h] /\ Done(a, 1)
           /\ UNCHANGED <<hs, body, intReq, intEn, stopReq, cbReg, cbRan, rel>>
+       \* the wait is an interruption point as well: it may end by throwing (result 2) once an interruption has
+       \* been requested and interruption is enabled
+       \/ /\ k = "acq" /\ intReq[h] /\ intEn[h] /\ Done(a, 2)
+          /\ UNCHANGED <<hs, body, intReq, intEn, stopReq, cbReg, cbRan, rel>>
        \/ /\ k = "ipoint" /\ Done(a, IF intReq[h] /\ intEn[h] THEN 1 ELSE 0)
           /\ UNCHANGED <<hs, body, intReq, intEn, stopReq, cbReg, cbRan, rel>>
        \/ /\ k = "stop_seen" /\ Done(a, IF stopReq[h] THEN 1 ELSE 0)
@@ -95,7 +99,7 @@ ExitCb(h) == /\ body[h] = "finished" /\ cbRan[h] < cbReg[h]
 
 Obligation(a) ==
     \/ op[a].st = "called" /\ op[a].kind \notin {"join", "destroy_j", "block", "acq"}
-    \/ op[a].st = "called" /\ op[a].kind = "acq" /\ rel[op[a].h]
+    \/ op[a].st = "called" /\ op[a].kind = "acq" /\ (rel[op[a].h] \/ (intReq[op[a].h] /\ intEn[op[a].h]))
     \/ op[a].st = "called" /\ op[a].kind = "block" /\ intReq[op[a].h] /\ intEn[op[a].h]
     \/ op[a].st = "called" /\ op[a].kind = "join" /\ (hs[op[a].h] # "joinable" \/ Finished(op[a].h))
     \/ op[a].st = "called" /\ op[a].kind = "destroy_j"
